@@ -11,7 +11,8 @@ SCENARIOS = {"nofault": 3, "faults": 2}
 TIERS = {"quick": {"runs": 15000, "chunk": 50}, "thorough": {"runs": 50000000, "wall_s": 600, "chunk": 300, "recheck": 16}}
 RULE = ("one run = 1-2 simulated terminals with 1-4 FMMUs and 2-10 mapping tasks that "
         "enter and leave Terminal.map_fmmu(logical, write) contexts (single, or nested "
-        "write+read as SyncGroupBase.map_fmmu does) with drawn start times and durations, "
+        "write+read as SyncGroupBase.map_fmmu does) with drawn start times and durations, in "
+        "40 % of the runs some at a logical address another live mapping of the terminal uses, "
         "so that mappings nest and overlap; 'faults' adds cancellation of a mapping task "
         "and unprocessed register writes; after every enter/exit the slot table and the "
         "terminal's FMMU register file are compared with the set of live mappings; "
@@ -57,6 +58,9 @@ def run(tape, scenario):
         terms.append(t)
 
     live = {}            # mapping id -> (terminal index, write, logical, slot)
+    claims = {}          # mapping id -> (terminal index, logical) from before map_fmmu is
+                         # entered until it is left for good (a slot is reserved before
+                         # the configuring write and released after the deactivating one)
     violations = []
     events = []
     max_live = [0]
@@ -109,15 +113,34 @@ def run(tape, scenario):
 
     mid_counter = [0]
 
-    async def one_mapping(k, write, hold, nested=None, raise_in_body=False):
+    # per run: may two live mappings of one terminal carry the same logical address (inputs
+    # and outputs placed at one address for LRW, or two groups mapping the same window)?
+    share_logical = tape.chance("c20/share-logical", 40)
+
+    def stale(k, logical):
+        """is `logical` in terminal k's slot table more often than live mappings carry it?"""
+        have = sum(1 for x in terms[k].fmmu_used if x == logical)
+        want = sum(1 for m in claims.values() if m == (k, logical))
+        return have > want
+
+    async def one_mapping(k, write, hold, nested=None, raise_in_body=False, same_as=None):
         t, st = terms[k], sims[k]
-        logical = next_logical[0]
-        next_logical[0] += 0x1000
+        candidates = sorted({m[2] for m in live.values() if m[0] == k})
+        if same_as is not None:
+            logical = same_as
+        elif share_logical and candidates and tape.chance("c20/same-logical", 40):
+            logical = tape.pick("c20/which-logical", candidates)
+            world.count("c20/shared-logical-address")
+        else:
+            logical = next_logical[0]
+            next_logical[0] += 0x1000
         mid_counter[0] += 1
         mid = mid_counter[0]
         free_before = sum(1 for x in t.fmmu_used if x is None)
         live_here = sum(1 for m in live.values() if m[0] == k)
+        nested_same = nested is not None and share_logical and tape.chance("c20/nested-same", 50)
         entered = False
+        claims[mid] = (k, logical)
         try:
             async with t.map_fmmu(logical, write) as slot:
                 entered = True
@@ -130,13 +153,14 @@ def run(tape, scenario):
                          f"{(write, hex(logical))} still got slot {slot}")
                 check(f"after enter #{mid}")
                 if nested is not None:
-                    await one_mapping(*nested)
+                    await one_mapping(*nested, same_as=logical if nested_same else None)
                 else:
                     await asyncio.sleep(hold)
                 if raise_in_body:
                     raise RuntimeError("user error in the body")
                 live.pop(mid, None)
                 events.append(("exit", k, write, slot))
+            claims.pop(mid, None)
             # normal exit: its own FMMU is deactivated and its slot is free again
             if 0 <= slot < st.n_fmmu:
                 others = [m for m in live.values() if m[0] == k and m[3] == slot]
@@ -150,27 +174,31 @@ def run(tape, scenario):
             check(f"after exit #{mid}")
         except ValueError as e:
             live.pop(mid, None)
+            claims.pop(mid, None)
             events.append(("refused", k, write))
             world.count("c20/refused")
             if entered:
                 raise
         except EtherCatError:
             live.pop(mid, None)
+            claims.pop(mid, None)
             world.count("c20/register-write-not-processed")
             events.append(("io-error", k, write))
-            if not entered and any(x == logical for x in t.fmmu_used):
+            if not entered and stale(k, logical):
                 viol("slot-not-freed", f"terminal {k}: failed mapping left {hex(logical)} "
                      f"in the table {t.fmmu_used}")
         except RuntimeError:
             live.pop(mid, None)
+            claims.pop(mid, None)
             events.append(("body-error", k, write))
-            if any(x == logical for x in t.fmmu_used):
+            if stale(k, logical):
                 viol("slot-not-freed", f"terminal {k}: mapping ended by an exception left "
                      f"{hex(logical)} in the table {t.fmmu_used}")
         except asyncio.CancelledError:
             live.pop(mid, None)
+            claims.pop(mid, None)
             events.append(("cancelled", k, write))
-            if any(x == logical for x in t.fmmu_used):
+            if stale(k, logical):
                 viol("slot-not-freed", f"terminal {k}: cancelled mapping left "
                      f"{hex(logical)} in the table {t.fmmu_used}")
             raise
